@@ -74,4 +74,75 @@ def step (j : Json) : Option String := do
     outs := outs ++ [showCalls issued ++ suffix]
   pure (showGeo d ++ " | " ++ " ; ".intercalate outs)
 
-def main : IO Unit := driverMain step
+/-! family cases: several instances around one shared descriptor, run through `stepEvent` -/
+
+def sizesList (js : List Json) : Option (List (List Nat)) := js.mapM fun j => do sizesOf (← jArr j)
+
+def parseDictGeo (j : Json) : Option DictGeo := do
+  pure ⟨← sizesOf (← fArr j "key"), ← sizesOf (← fArr j "value"), ← fNat j "size", ← fBool j "lru"⟩
+
+def parseFamily (j : Json) : Option Family := do
+  let kind ← fStr j "map"
+  if kind == "array" then
+    pure (.array (← sizesOf (← fArr j "base")) (← sizesList (← fArr j "derived")) (← sizesList (← fArr j "subs")))
+  else if kind == "percpu" then
+    pure (.percpu (← sizesOf (← fArr j "base")) (← sizesList (← fArr j "derived")) (← sizesList (← fArr j "subs")))
+  else if kind == "hashvars" then
+    let vs ← (← fArr j "base").mapM fun v => do
+      match ← jArr v with
+      | f :: _ => fmtsize (← jStr f)
+      | _ => none
+    pure (.hashVars vs)
+  else if kind == "dict" then
+    let ds ← (← fArr j "derived").mapM fun d =>
+      if d.isNull then some none else (parseDictGeo d).map some
+    pure (.dict (← parseDictGeo (← field j "base")) ds)
+  else none
+
+def parseInst (j : Json) : Option Inst := do
+  pure ⟨← fNat j "cls", ← (← fArr j "subs").mapM jNat⟩
+
+def geoOf (g : Geometry) : String := s!"{g.mapType}/{g.keySize}/{g.valueSize}/{g.maxEntries}/{g.flags}"
+
+def stepFamily (j : Json) : Option String := do
+  let ncpu ← fNat j "possible"
+  let f ← parseFamily (← field j "family")
+  let insts ← (← fArr j "instances").mapM parseInst
+  let cs ← fArr j "calls"
+  let mut w := World.empty
+  for i in insts do
+    w := (stepEvent f ncpu w (.create i)).1
+  let mut outs : List String := []
+  for idx in List.range insts.length do
+    outs := outs ++ [showCalls (stepEvent f ncpu w (.use idx .load)).2]
+  let mut haveRead : List Nat := []
+  for c in cs do
+    match ← jArr c with
+    | [] => none
+    | ji :: rest =>
+      if jStr ji == some "new" then
+        let i ← parseInst (← rest.head?)
+        w := (stepEvent f ncpu w (.create i)).1
+        outs := outs ++ [showCalls (stepEvent f ncpu w (.use (w.insts.length - 1) .load)).2]
+        continue
+      let idx ← jNat ji
+      let st ← w.insts[idx]?
+      let (apis, hr, showLenSuffix) ← parseCall st.decl (haveRead.contains idx) rest
+      if hr then haveRead := idx :: haveRead
+      let issued := apis.flatMap fun a => (stepEvent f ncpu w (.use idx a)).2
+      let suffix := if showLenSuffix then
+          match issued with
+          | [⟨_, _, some n⟩] => s!"={n}"
+          | _ => ""
+        else ""
+      outs := outs ++ [showCalls issued ++ suffix]
+  let geos := w.insts.filterMap fun st => st.geo.map geoOf
+  let mmaps := w.insts.filterMap fun st => (mmapLen st.decl).map toString
+  pure (" ".intercalate geos ++ " mmap=" ++ ",".intercalate mmaps ++ " | " ++ " ; ".intercalate outs)
+
+def stepAny (j : Json) : Option String :=
+  match field j "family" with
+  | some _ => stepFamily j
+  | none => step j
+
+def main : IO Unit := driverMain stepAny
